@@ -53,6 +53,11 @@ func c14Setup(r *Run) simrt.Config {
 		c.FinePkg = "middleware.(*mapExpiringKeyRepository)"
 	}
 	c.StepCap = 40000
+	if r.T.Chance(1, 3) {
+		// stalled runs: the "accepted again after two windows" clause presumes a stall-free run and is skipped
+		c.ClockJumps, c.JumpMax, c.JumpWithin = 3, 3*window, 800
+		r.Param("stalled", 1)
+	}
 	return c
 }
 
@@ -163,7 +168,7 @@ func c14Body(r *Run) {
 			plan[w] = append(plan[w], job{g: g, wave: w, keyIdx: t.Int(nKeys), variant: t.Int(3)})
 		}
 	}
-	stallFree := true
+	stallFree := r.Params["stalled"] == 0
 	r.Sim.AtEnd(func() { c14Check(r, pres, window, useDecorator, hasher, stallFree) })
 	for w := 0; w < waves; w++ {
 		var wg sync.WaitGroup
@@ -231,6 +236,19 @@ func c14Check(r *Run, pres []*c14Pres, window time.Duration, useDecorator bool, 
 		// R2: a rejected presentation needs a recent acceptance
 		for _, b := range ps {
 			if b.accepted {
+				continue
+			}
+			if !stallFree {
+				// only "never accepted before" can be demanded
+				ever := false
+				for _, a := range ps {
+					if a.accepted && a.invEv < b.retEv {
+						ever = true
+					}
+				}
+				if !ever {
+					r.Fail("C14.R2", "a message was dropped as duplicate although its key had never been accepted", "key %s presented at %v..%v, window %v (stalled run)", k, b.inv, b.ret, window)
+				}
 				continue
 			}
 			justified := false
